@@ -97,7 +97,15 @@ class Engine:
             configs[f"c{i}"] = gd.gen_config(g, "docutils")
         for cid, cfg in configs.items():
             if g.random() < 0.5:
-                cfg["inventories"] = {"key": ["https://inv.example/", "<ROOT>/objects.inv"]}
+                # the same local file under different base URLs / keys in different configurations
+                cfg["inventories"] = g.choice([
+                    {"key": ["https://inv.example/", "<ROOT>/objects.inv"]},
+                    {"key": ["https://inv.example/", "<ROOT>/objects.inv"]},
+                    {"key": ["https://other.example/en/stable/", "<ROOT>/objects.inv"]},
+                    {"key": ["https://inv.example/v2", "<ROOT>/objects.inv"],
+                     "second": ["https://second.example/", "<ROOT>/objects.inv"]},
+                    {"other": ["https://inv.example/", "<ROOT>/objects.inv"]},
+                ])
         cids = sorted(configs)
         settings_objs = {f"s{i}": {"cfg": o.choice(cids), "writer": o.choice([None, None, "html5"])}
                          for i in range(o.choice([1, 2, 3]))}
